@@ -8,7 +8,7 @@
    [run_steps_spec] lifts [serve_spec] to arbitrary histories by induction; the named theorems are
    then proved on the abstraction by induction over the micro steps (any length, any batch size). *)
 From Coq Require Import List Arith NArith Bool Lia Sorted.
-From Verif Require Import Lib.Obs Gen.StatusTables Model.Reconnect.
+From Verif Require Import Lib.Obs Gen.StatusTables Model.Status Proofs.Status Model.Reconnect.
 Import ListNotations.
 Open Scope N_scope.
 
@@ -28,7 +28,7 @@ Definition spec_call (a : aconn) (net : reach) (n : N) : aconn * N * outcome :=
       match net with
       | Up => (AAlive, n + 1, Response)
       | Down r => (ANone, n + 1, ConnectErr (mkErr (n + 1) r Refused))
-      | UpDead => (ANone, n + 1, ConnectErr (mkErr (n + 1) 0 Handshake))
+      | UpDead r => (ANone, n + 1, ConnectErr (mkErr (n + 1) r Handshake))
       | UpGarbage => (ASevered, n + 1, Canceled)
       end
   end.
@@ -40,7 +40,7 @@ Definition ev_net (e : ev) (net : reach) : reach :=
   match e with
   | ConnectFails r => Down r
   | ConnectSucceeds => Up
-  | ConnectSucceedsDead => UpDead
+  | ConnectSucceedsDead r => UpDead r
   | ConnectSucceedsGarbage => UpGarbage
   | ConnectionDropped => net
   end.
@@ -91,10 +91,11 @@ Lemma spec_call_cases : forall a net n a' n' o,
   (o = Response /\ a' = AAlive /\ ((a = AAlive /\ n' = n) \/ (a = ANone /\ net = Up /\ n' = n + 1))) \/
   (o = Canceled /\ a' = ASevered /\ ((a = ASevered /\ n' = n) \/ (a = ANone /\ net = UpGarbage /\ n' = n + 1))) \/
   (exists e, o = ConnectErr e /\ e_attempt e = n' /\ a = ANone /\ a' = ANone /\ n' = n + 1 /\
-             ((net = Down (e_reason e) /\ e_kind e = Refused) \/ (net = UpDead /\ e_kind e = Handshake))).
+             ((net = Down (e_reason e) /\ e_kind e = Refused) \/
+              (net = UpDead (e_reason e) /\ e_kind e = Handshake))).
 Proof.
   intros a net n a' n' o H. destruct a; simpl in H.
-  - destruct net as [|r| |]; injection H as <- <- <-.
+  - destruct net as [|r|r|]; injection H as <- <- <-.
     + left. auto 10.
     + right. right. eexists. cbn. auto 12.
     + right. right. eexists. cbn. auto 12.
@@ -333,7 +334,7 @@ Section Contracts.
     match w_net w with
     | Up => Ok Alive
     | Down r => Err (mkErr (w_attempts w + 1) r Refused)
-    | UpDead => Err (mkErr (w_attempts w + 1) 0 Handshake)
+    | UpDead r => Err (mkErr (w_attempts w + 1) r Handshake)
     | UpGarbage => Ok Severed
     end.
   (* the world after one well-formed invocation of the connector: counted, and its readiness
@@ -536,7 +537,7 @@ Section Contracts.
     unfold connect_answer. cbn [spec_call].
     destruct w as [net lat n rd pl prl]. cbn [w_net w_attempts w_lat w_prl bump world_with].
     destruct rc as [st er hbc lz gh]; simpl in *; subst.
-    destruct net as [|r| |]; cbn; unfold sent_outcome;
+    destruct net as [|r|r|]; cbn; unfold sent_outcome;
       rewrite ?(sc_send_alive _ _ HC), ?(sc_send_severed _ _ HC);
       (eexists; split; [reflexivity|]; split; [constructor; simpl; auto|]; split; [reflexivity|]; simpl; lia).
   Qed.
@@ -676,12 +677,12 @@ Section Contracts.
     - destruct s as [e|b|k].
       + (* environment event *)
         cbn [flatten spec_micro] in Hsp.
-        destruct e as [r| | | |]; cbn [ev_conn ev_net] in Hsp.
+        destruct e as [r| |r| |]; cbn [ev_conn ev_net] in Hsp.
         * destruct (IH f ch (set_net w (Down r)) rs a' net' n' HG (canon_set_net w _ HW) Hf Hsp) as (ch' & E & G & A & I).
           exists ch'. split; [exact E|]. split; [exact G|]. split; [exact A| exact I].
         * destruct (IH f ch (set_net w Up) rs a' net' n' HG (canon_set_net w _ HW) Hf Hsp) as (ch' & E & G & A & I).
           exists ch'. split; [exact E|]. split; [exact G|]. split; [exact A| exact I].
-        * destruct (IH f ch (set_net w UpDead) rs a' net' n' HG (canon_set_net w _ HW) Hf Hsp) as (ch' & E & G & A & I).
+        * destruct (IH f ch (set_net w (UpDead r)) rs a' net' n' HG (canon_set_net w _ HW) Hf Hsp) as (ch' & E & G & A & I).
           exists ch'. split; [exact E|]. split; [exact G|]. split; [exact A| exact I].
         * destruct (IH f ch (set_net w UpGarbage) rs a' net' n' HG (canon_set_net w _ HW) Hf Hsp) as (ch' & E & G & A & I).
           exists ch'. split; [exact E|]. split; [exact G|]. split; [exact A| exact I].
@@ -770,7 +771,7 @@ Section Contracts.
       match w_net w with
       | Up => (Some (mkChan (mkRc (Connected Alive) None true false 1) None), bump w, Some RoOk)
       | Down r => (None, bump w, Some (RoErr (mkErr (w_attempts w + 1) r Refused)))
-      | UpDead => (None, bump w, Some (RoErr (mkErr (w_attempts w + 1) 0 Handshake)))
+      | UpDead r => (None, bump w, Some (RoErr (mkErr (w_attempts w + 1) r Handshake)))
       | UpGarbage => (Some (mkChan (mkRc (Connected Closed) None true false 1) None), bump w, Some RoOk)
       end.
   Proof.
@@ -787,7 +788,7 @@ Section Contracts.
          | Up => let '(rs, _, _, n) := spec_steps h AAlive net0 1 in mkRun (Some RoOk) rs n (Some n)
          | UpGarbage => let '(rs, _, _, n) := spec_steps h ANone net0 1 in mkRun (Some RoOk) rs n (Some n)
          | Down r => mkRun (Some (RoErr (mkErr 1 r Refused))) [] 1 None
-         | UpDead => mkRun (Some (RoErr (mkErr 1 0 Handshake))) [] 1 None
+         | UpDead r => mkRun (Some (RoErr (mkErr 1 r Handshake))) [] 1 None
          end.
 
   Lemma run_with_spec : forall f is_lazy lat prl net0 h,
@@ -803,7 +804,7 @@ Section Contracts.
         as (ch' & E & _ & _ & I).
       fold run_steps'. rewrite E. cbn [ch_rc rc_i2c w_attempts new_reconnect init_world] in I. cbn [w_attempts]. f_equal. f_equal. lia.
     - rewrite build_eager by (cbn; lia). cbn [init_world w_net bump w_lat w_attempts w_prl spec_result].
-      destruct net0 as [|r| |]; try reflexivity.
+      destruct net0 as [|r|r|]; try reflexivity.
       + destruct (spec_steps h AAlive Up 1) as [[[rs a'] net'] n'] eqn:Es.
         assert (G : Good (mkChan (mkRc (Connected Alive) None true false 1) None)) by (constructor; simpl; auto).
         destruct (run_steps_spec h f _ (mkWorld Up lat (0 + 1) false prl prl) rs a' net' n' G
@@ -818,15 +819,23 @@ Section Contracts.
 End Contracts.
 
 (* ================================================================ error -> code *)
-(* both kinds of connect error carry a ConnectError in their source chain *)
+(* Both kinds of connect error carry a ConnectError right under the transport::Error, so
+   Status::from_error (Model/Status.v, theorems from_error_skips_unknown_wrappers and
+   from_error_connect) makes UNAVAILABLE of it WHATEVER lies beneath: [e] ranges over every
+   reason, i.e. every io::ErrorKind / custom error / String and every wrapping depth *)
+Lemma chain_connect : forall l, from_error_code (EOther :: EConnect :: l) = Code_Unavailable.
+Proof. intro l. rewrite from_error_skips_unknown_wrappers. exact (from_error_connect l). Qed.
 Lemma connect_err_is_unavailable : forall e, outcome_code (ConnectErr e) = Some Code_Unavailable.
-Proof. intros [k r []]; reflexivity. Qed.
+Proof. intro e. unfold outcome_code, chain_of, chain_of_err. rewrite chain_connect. reflexivity. Qed.
 Lemma canceled_is_cancelled : outcome_code Canceled = Some Code_Cancelled.
 Proof. reflexivity. Qed.
 Lemma connect_error_is_unavailable : forall e,
   outcome_code (ConnectErr e) = Some Code_Unavailable /\
   code_from_error (chain_of_err e) = Code_Unavailable.
-Proof. intros [k r []]; split; reflexivity. Qed.
+Proof.
+  intro e. split; [apply connect_err_is_unavailable|].
+  unfold code_from_error, chain_of_err. apply chain_connect.
+Qed.
 
 (* ================================================================ whole runs on the abstraction *)
 Lemma spec_result_built : forall is_lazy net0 h,
@@ -847,20 +856,20 @@ Qed.
 Lemma spec_result_not_built : forall is_lazy net0 h,
   ~ built is_lazy net0 ->
   exists e, is_lazy = false /\ e_attempt e = 1 /\
-    ((net0 = Down (e_reason e) /\ e_kind e = Refused) \/ (net0 = UpDead /\ e_kind e = Handshake)) /\
+    ((net0 = Down (e_reason e) /\ e_kind e = Refused) \/ (net0 = UpDead (e_reason e) /\ e_kind e = Handshake)) /\
     spec_result is_lazy net0 h = mkRun (Some (RoErr e)) [] 1 None.
 Proof.
   intros is_lazy net0 h Hn. destruct is_lazy; [exfalso; apply Hn; left; reflexivity|].
-  destruct net0 as [|r| |].
+  destruct net0 as [|r|r|].
   - exfalso; apply Hn; right; left; reflexivity.
   - exists (mkErr 1 r Refused). cbn. auto 10.
-  - exists (mkErr 1 0 Handshake). cbn. auto 10.
+  - exists (mkErr 1 r Handshake). cbn. auto 10.
   - exfalso; apply Hn; right; right; reflexivity.
 Qed.
 
 Lemma built_dec : forall is_lazy net0, built is_lazy net0 \/ ~ built is_lazy net0.
 Proof.
-  intros [|] [|r| |]; unfold built; auto; right; intros [H|[H|H]]; discriminate.
+  intros [|] [|r|r|]; unfold built; auto; right; intros [H|[H|H]]; discriminate.
 Qed.
 
 Section Theorems.
@@ -1050,7 +1059,7 @@ Section Theorems.
     nth_error (r_calls (R (h1 ++ Call :: h2))) (count_calls h1) = Some c ->
     rec_outcome c = ConnectErr e ->
     (net_after net0 h1 = Down (e_reason e) /\ e_kind e = Refused) \/
-    (net_after net0 h1 = UpDead /\ e_kind e = Handshake).
+    (net_after net0 h1 = UpDead (e_reason e) /\ e_kind e = Handshake).
   Proof.
     intros h1 h2 c e Hnth Hc. rewrite R_spec in Hnth. destruct (built_dec is_lazy net0) as [B|B].
     - destruct (spec_result_built is_lazy net0 (h1 ++ Call :: h2) B) as (a0 & eo & Ha & _ & _ & _ & Es).
@@ -1070,9 +1079,9 @@ Section Theorems.
      the peer is not HTTP/2 the connection is established and dies under the request: CANCELLED *)
   Theorem handshake_failure_outcome : forall h1 h2 c,
     nth_error (r_calls (R (h1 ++ Call :: h2))) (count_calls h1) = Some c -> quiescent h1 = true ->
-    (net_after net0 h1 = UpDead ->
+    (forall r, net_after net0 h1 = UpDead r ->
      rec_outcome c = Response \/
-     exists e, rec_outcome c = ConnectErr e /\ e_kind e = Handshake /\
+     exists e, rec_outcome c = ConnectErr e /\ e_kind e = Handshake /\ e_reason e = r /\
                outcome_code (rec_outcome c) = Some Code_Unavailable) /\
     (net_after net0 h1 = UpGarbage ->
      rec_outcome c = Response \/
@@ -1085,8 +1094,9 @@ Section Theorems.
       destruct (spec_nth_call _ _ _ _ _ _ _ _ _ E) as (rs1 & a1 & n1 & E1 & Nth & _).
       pose proof (steps_no_severed _ _ _ _ _ _ _ _ E1 Hq Ha) as Ha1.
       rewrite Nth in Hnth. injection Hnth as <-. unfold rec_outcome. cbn [fst snd].
-      split; intro Hn; rewrite Hn; destruct a1; try congruence; cbn; auto.
-      right. eexists. split; [reflexivity|]. split; reflexivity.
+      split; [intros r Hn | intro Hn]; rewrite Hn; destruct a1; try congruence; cbn; auto.
+      right. exists (mkErr (n1 + 1) r Handshake). split; [reflexivity|]. split; [reflexivity|].
+      split; [reflexivity|]. exact (connect_err_is_unavailable (mkErr (n1 + 1) r Handshake)).
     - destruct (spec_result_not_built is_lazy net0 (h1 ++ Call :: h2) B) as (e' & _ & _ & _ & Es).
       rewrite Es in Hnth. cbn in Hnth. destruct (count_calls h1); discriminate.
   Qed.
@@ -1129,9 +1139,9 @@ Proof. intros. rewrite run_with_spec by assumption. reflexivity. Qed.
 
 Theorem eager_handshake_failure_immediate :
   forall cpr sreq, stack_contract cpr sreq ->
-  forall fuel lat prl h, enough_fuel lat prl fuel ->
-    run_with cpr sreq fuel false lat prl UpDead h =
-      mkRun (Some (RoErr (mkErr 1 0 Handshake))) [] 1 None.
+  forall fuel lat prl reason h, enough_fuel lat prl fuel ->
+    run_with cpr sreq fuel false lat prl (UpDead reason) h =
+      mkRun (Some (RoErr (mkErr 1 reason Handshake))) [] 1 None.
 Proof. intros. rewrite run_with_spec by assumption. reflexivity. Qed.
 
 Theorem eager_initial_success :
